@@ -8,7 +8,7 @@ use std::str::FromStr;
 
 pub fn meta() -> Meta {
     Meta {
-        rule: "events = decompose / subdivision / Display / from_str(Display) / serde_json round trip / Epoch::hours()..nanoseconds() on one duration with |count| <= 10000 years, and from_str on harness-built texts: every spelling of the unit table x {1-digit, 2-digit, 3-digit, fractional} values with and without leading '-', multi-unit texts, and [+-]HH:MM[:SS] / [+-]HHMM offsets. Expected: integer div/mod of |count|, harness-built text (M-TEXT), identical parts after parsing, single-unit fractional text == the C18 float product. Generation: k*U+d for every unit U, k in 1..1000 exhaustively then log-spaced, d in -3..3; values around 2^53, 2^63, 2^64 ns; stratified random; both signs. Non-trivial = |count| >= 2^53 ns, within 3 ns of a unit multiple, negative, multi-byte unit text, offset text; distinct = distinct count / text hashes among those.",
+        rule: "events = decompose / subdivision / Display / from_str(Display) / serde_json round trip / Epoch::hours()..nanoseconds() on one duration with |count| <= 10000 years, and from_str on harness-built texts: every spelling of the unit table x {1-digit, 2-digit, 3-digit, fractional} values with and without leading '-', multi-unit texts, and [+-]HH:MM[:SS] / [+-]HHMM offsets. Expected: integer div/mod of |count|, harness-built text (M-TEXT), identical parts after parsing, single-unit fractional text == the C18 float product. Generation: k*U+d for every unit U, k in 1..1000 exhaustively then log-spaced, d in -3..3; values around 2^53, 2^63, 2^64 ns; stratified random; both signs. Non-trivial = |count| >= 2^53 ns, within 3 ns of a unit multiple, negative, multi-byte unit text, offset text; distinct = distinct count / text hashes among those. Round 6: fractional values whose whole part has any digit count the unit allows within 10 000 years.",
         assumptions: &["sign of decompose: only (sign < 0) == (count < 0) is demanded (the existing suite fixes 0 for positive sub-century values)"],
         mandatory: &["dur/near-unit-multiple", "dur/beyond-2^53", "dur/negative", "text/micro-sign", "text/spelling", "text/fractional", "text/offset", "text/negative-multi-unit"],
         thorough_scale: 50,
